@@ -1306,6 +1306,12 @@ void generate(Program &prog, dsim::Config &cfg, dsim::Rng &pr, dsim::Rng &cr, in
       if (opt) set({{kOptVerify, 2}, {kOptTryS, 1}, {kOptTrySIX, 1}, {kOptTryX, 2}, {kPrepRead, 2}});
       break;
   }
+  size_t budget = 24;
+  if (scale() >= 1 && pr.chance(1, 3)) {  // thorough tier: a third of the programs are larger
+    max_thr += 1;
+    max_ops += 3;
+    budget = 36;
+  }
   if (!opt)
     for (int k : {kOptVerify, kOptTryS, kOptTrySIX, kOptTryX, kPrepRead}) W.w[k] = 0;
   int total_w = 0;
@@ -1328,7 +1334,6 @@ void generate(Program &prog, dsim::Config &cfg, dsim::Rng &pr, dsim::Rng &cr, in
     prog.params.push_back(start);
   }
   prog.threads.assign(static_cast<size_t>(nthr), {});
-  size_t budget = 24;
   for (int t = 0; t < nthr; ++t) {
     const bool is_manip = manipulator && t == 0;
     const int home = static_cast<int>(pr.below(static_cast<uint64_t>(nlocks)));
